@@ -209,6 +209,10 @@ fn judge(spec: &FaultSpec, run: &RunOut, end: &EndState, panics: &[String]) -> V
                 ));
                 return fs;
             }
+            // a failed write / unconditional delete may still have created the active blob
+            if matches!(st.op, Op::Write { .. } | Op::Delete { oip: false, .. }) && !precondition {
+                m.ensure_active();
+            }
             if let Some(b) = bytes {
                 failed_values.push(b);
             }
